@@ -26,6 +26,7 @@ func C16(ctx *core.Ctx, r *core.Report) {
 	c16WhereScope(ctx, r)
 	c16WhereBaseByIdentity(ctx, r)
 	c16LiteralExact(ctx, r)
+	c16OperandReadUnfiltered(ctx, r)
 	c08WhereNeedsBase(ctx, r)
 	c16WhenGoesOnTheNode(ctx, r)
 	c16ExpressionWalkedOnce(ctx, r)
